@@ -14,6 +14,10 @@ For every route of the console route table (console_tables.read_routes) whose pa
   GuardCheck    `let P = user_namespace_privilege!(req);` and `if !P.check_permission(&..) {` or
                 `if !P.check_option_value_permission(&.., false) {` whose block starts with
                 `user_no_namespace_permission!` or `return`, before the first data access
+  GuardIndex    `X.to_param(&req)` and nothing else: the privilege travels inside the query parameter and only the
+                index filter applies it (a forbidden named namespace gives an empty result, not a refusal); accepted
+                only while every `fn to_param(self, req: &HttpRequest)` of src/console/model reads
+                `user_namespace_privilege!(req)` into the parameter's `namespace_privilege` field
   NoGuard       the body (and the local helper functions it calls) never mentions the caller's privilege
 
 Anything else — privilege tokens in another arrangement, a data access before the check, a guard hidden
@@ -218,6 +222,10 @@ def classify(rel, name, d, fns_in_file):
     words = [t.v for t in body]
     where = "%s:%s" % (rel, name)
     has_priv = uses_privilege(words)
+    if not has_priv and ". to_param ( & req )" in " ".join(words):
+        # the privilege travels inside the query parameter (the request model's to_param(&req) reads it from the
+        # session — verified in generate()) and the handler itself never refuses: the index filter decides
+        return "GuardIndex"
     if not has_priv:
         # one level of local helpers
         for i, w in enumerate(words[:-1]):
@@ -260,6 +268,20 @@ def generate(repo):
     services, rr = console_tables.read_routes(repo)
     flat = actix_routes.flatten(services)
     res = Resolver(repo)
+    # GuardIndex / GuardParam rely on this: every to_param(self, req) of the console request models puts the
+    # session's privilege into the parameter
+    for rel in ("src/console/model/config_model.rs", "src/console/model/naming_model.rs"):
+        src = open(os.path.join(repo, rel)).read()
+        for m in re.finditer(r"pub fn to_param\(self, req: &HttpRequest\)[^{]*\{", src):
+            depth, j = 1, m.end()
+            while depth and j < len(src):
+                depth += {"{": 1, "}": -1}.get(src[j], 0)
+                j += 1
+            fb = src[m.end():j]
+            if "user_namespace_privilege!(req)" not in fb or not re.search(r"\bnamespace_privilege\b\s*[,}]", fb):
+                raise Refuse("%s: to_param(self, req) does not carry the session's namespace privilege into the parameter" % rel)
+        if "pub fn to_param(self, req: &HttpRequest)" not in src:
+            raise Refuse("%s: to_param(self, req: &HttpRequest) not found" % rel)
     rows = []
     for pattern, method, handler in flat:
         if not pattern.startswith(API_PREFIX):
